@@ -5,7 +5,7 @@ import NbioVerif.Lemmas.SrcBridgeConn
 #print axioms Life.runAll_run
 #print axioms Life.c03_close_once
 #print axioms Life.c03_raced_only_addconn
-#print axioms Life.c03_raced_open_without_close
+#print axioms Life.c03_no_open_without_close
 #print axioms Life.c03_raced_close_before_open
 #print axioms Life.c03_close_after_open
 #print axioms Life.c03_wg
